@@ -5,7 +5,7 @@ P=$1; D=$2; RES=$3
 WT=/tmp/seedns-$$
 export CARGO_NET_OFFLINE=true
 {
-git -C /repo worktree add -q --detach $WT HEAD || exit 3
+git -C /repo worktree add -q --detach $WT ${SEED_BASE:-HEAD} || exit 3
 cd $WT
 cargo build --offline 2>&1 | tail -1
 echo "--- demo WITHOUT the change"; timeout 20 ./target/debug/naija $D/demo.ns < /dev/null 2>&1 | sed 's/\x1b\[[0-9;]*m//g' | grep -v "^$" | head -6; echo "exit=${PIPESTATUS[0]}"
